@@ -767,6 +767,45 @@ func mustCallOnAllPaths(fn *ssa.Function, target *ssa.Function, match func(call 
 // row for a column definition with a filter (event input or block field) is
 // offered to that very definition's Filter.Accept before the row can be
 // appended; no bypass (e.g. "the source already filtered this") exists.
+// checkFiltersNeverOverwritten: the filter a user declared on a block field
+// or an event input is what the row builder evaluates.  No code assigns the
+// Filter field of a dig.BlockData / dig.Input (clearing it "because the source
+// already filtered" lets logs that another task attached to a shared cached
+// block through).  Whole values copied from the configuration are fine.
+func checkFiltersNeverOverwritten(c *Ctx, rule string) {
+	w := c.W
+	fields := map[*types.Var]string{
+		w.Field("dig", "BlockData", "Filter"): "BlockData.Filter",
+		w.Field("dig", "Input", "Filter"):     "Input.Filter",
+	}
+	n := 0
+	for _, fn := range w.RepoFuncs() {
+		if takesTestingTB(fn) {
+			continue
+		}
+		allInstrs(fn, func(in ssa.Instruction) {
+			st, ok := in.(*ssa.Store)
+			if !ok {
+				return
+			}
+			f, base := fieldOf(st.Addr)
+			name, hit := fields[f]
+			if !hit {
+				return
+			}
+			if isLocalAlloc(accessPath(base).Root) {
+				return // a value under construction
+			}
+			n++
+			c.Violation(rule, fmt.Sprintf("%s/assigns-%s#%d", fnName(fn), name, n), st.Pos(),
+				"a declared filter is replaced after configuration was read: rows are then judged by something other than what the user declared")
+		})
+	}
+	if n == 0 {
+		c.OK(rule, "filters/never-overwritten", token.NoPos, "no code assigns the Filter of a block field or event input")
+	}
+}
+
 func checkEveryCellFiltered(c *Ctx, rule string) {
 	w := c.W
 	accept := w.Fn("dig", "Filter.Accept")
